@@ -3,6 +3,7 @@ import RubyTi.Model.Lexer
 import RubyTi.Model.Token
 import RubyTi.Model.Config
 import RubyTi.Model.Args
+import RubyTi.Model.Sig
 
 /-! Line-protocol driver over the executable model definitions (core-only, built as `lean_exe`).
 One op per input line, one answer line per op; the answer format is the one
@@ -141,6 +142,20 @@ def opPDef (args : String) : String :=
   let names := ((args.splitOn " ").filter (· != "")).map String.toList
   " ".intercalate ((Args.prioritizeDefineArgNames names).map String.ofList)
 
+def opSortSig (args : String) : String :=
+  match args.splitOn " | " with
+  | [fn, rest] =>
+    let sigs : List Sig.Sig := if rest.trimAscii.toString == "" then [] else (rest.splitOn " ;; ").map fun s =>
+      match s.splitOn "~" with
+      | [m, d, f, c, st, file, row] =>
+        { method := m.toList, detail := d.toList, frame := f.toList, cls := c.toList, isStatic := st == "1",
+          isPrivate := false, fileName := file.toList, row := row.toNat!, document := [] }
+      | _ => { method := [], detail := [], frame := [], cls := [], isStatic := false, isPrivate := false, fileName := [], row := 0, document := [] }
+    " ;; ".intercalate ((Sig.sortSigs fn sigs).map fun s =>
+      "~".intercalate [String.ofList s.method, String.ofList s.detail, String.ofList s.frame, String.ofList s.cls,
+        (if s.isStatic then "1" else "0"), String.ofList s.fileName, toString s.row])
+  | _ => "BAD-ARGS"
+
 def dispatch (line : String) : String :=
   if line.isEmpty then "" else
   let name := (line.splitOn " ").headD ""
@@ -153,6 +168,7 @@ def dispatch (line : String) : String :=
   else if name == "pargs" then opPArgs args
   else if name == "builtin" then opBuiltin args
   else if name == "prio" then opPrio args
+  else if name == "sortsig" then opSortSig args
   else if name == "pdef" then opPDef args
   else "BAD-OP " ++ name
 
